@@ -98,7 +98,34 @@ def nsarg(ctx, rn, fam):
     ctx.ob('NSARG', 'all-four-children', set(seen) == {'items', 'values', 'union', 'field'}, short_loc(rn.span), 'children registered recursively: %s' % sorted(seen), nontrivial=False)
 
 
+TEXT_FOLDING = ('eq_ignore_ascii_case', 'to_lowercase', 'to_uppercase', 'to_ascii_lowercase', 'to_ascii_uppercase', 'make_ascii_lowercase',
+                'make_ascii_uppercase', 'impl str>::trim', 'impl str>::strip_prefix', 'impl str>::strip_suffix', 'impl str>::replace', 'to_pascal_case')
+
+
+def exact_text(ctx):
+    """names and type keywords are compared as written: Avro names are case sensitive and `String`, `Long`, `Record` are
+    legal user type names, so nothing in schema parsing / naming folds case, trims or rewrites text"""
+    f = ctx.f
+    found = []
+    n = 0
+    for b in f.body_list:
+        fl = fn_label(b)
+        if not fl.startswith(('schema::', '<schema::')):
+            continue
+        n += 1
+        for bb, t in b.calls():
+            if b.is_cleanup(bb):
+                continue
+            c = cname(t)
+            if any(x in c for x in TEXT_FOLDING):
+                found.append('%s in %s' % (strip_generics(c).rsplit('::', 1)[-1], short_fn(fl)))
+    ctx.ob('NAMEKEY', 'text-compared-exactly', not found, None,
+           'case-folding / trimming / rewriting calls in the schema modules: %s (%d functions scanned)' % (sorted(set(found)) or 'none', n))
+    ctx.floor('NAMEKEY', 'schema functions scanned for text folding', n, 80)
+
+
 def namekey(ctx, rn, fam):
+    exact_text(ctx)
     NK = PM + 'NameKey'
     # the two rsplit_once('.') calls and the NameKey aggregates around them
     rs = [(bb, t) for bb, t in rn.calls() if cname(t).endswith('str::<impl str>::rsplit_once')]
@@ -434,14 +461,16 @@ def cyclecheck(ctx):
     w = bool_table_writes(inner)
     rec = [(bb, t) for bb, t in inner.calls() if (t.get('resolved') or t.get('callee')) == inner.id]
     oks = ok_return_blocks(inner)
-    # on-stack table: the one tested before recursing
+    # on-stack table: the one that is set to true before any recursion (the other one, marked at exit, is the done
+    # table; a test of the done table before recursing - skip children already checked - is a sound shortcut)
+    entry_sets = {x[1] for x in w if x[2] == 1 and rec and all(inner.dominates(x[0], bb) for bb, t in rec)}
     onstack = None
     for bb, t in rec:
         for d, si, taken in dominating_switches(inner, bb):
             if si.get('kind') != 'enum':
                 so = origin(inner, si['op'])
                 ps = [a[1] for a in so.atoms if a[0] == 'param' and 'Vec<bool>' in inner.local_ty(a[1])]
-                if len(ps) == 1 and 'index' in so.flags and taken == ('val', (0,)):
+                if len(ps) == 1 and 'index' in so.flags and taken == ('val', (0,)) and ps[0] in entry_sets:
                     onstack = ps[0]
                     # the other edge (already on the stack) errs
                     others = [s_ for s_ in inner.succs(d) if not inner.dominates(s_, bb)]
